@@ -10,12 +10,20 @@ ID = "C02"
 TITLE = ("Lattice output is exact hypercube/simplex interpolation, inheriting "
          "kernel shape")
 RULE = ("Hypothesis draws a lattice shape (all-2, mixed, runs of equal sizes at "
-        "the start/middle/end, rank 1-5 with sizes 2-4; rank 8-9 all-2 and "
-        "rank-8 with one size 3 for the matmul branch of batch_outer_operation; "
-        "thorough: rank <= 6, sizes <= 5, more rank 8-9), units 1-3, the "
+        "the start/middle/end, rank 1-5 with sizes 2-4; rank 1-4 with one or "
+        "two dimensions of 5-8 vertices; rank 8-9 all-2, rank-8 with one size "
+        "3 and rank 8-9 with a run of equal non-2 sizes or two separate non-2 "
+        "sizes (<= 1152 weights) for the matmul branch of "
+        "batch_outer_operation; thorough: rank <= 6, sizes <= 5, more rank "
+        "8-9), lattice_sizes given as a list or a tuple, units 1-5, the "
         "interpolation scheme, the input form (one tensor / list of "
-        "per-feature tensors), 0-1 extra batch dimension, clip_inputs on/off, "
-        "the entry (Lattice layer / lattice_lib.evaluate_with_*), a kernel "
+        "per-feature tensors), 0-2 extra batch dimensions (sizes 1-3), "
+        "clip_inputs on/off, the entry (Lattice layer / "
+        "lattice_lib.evaluate_with_*), the call mode (eager; one case in "
+        "eight through a tf.function whose input signature leaves the batch "
+        "size unknown), the dtype (float32; one case in eight a float64 "
+        "layer / kernel / inputs with the same float32-representable "
+        "values), a kernel "
         "(array mixture; kernel non-decreasing along chosen dimensions built "
         "by cumulative sums of non-negatives; kernel satisfying an Edgeworth "
         "trust built from non-negative mixed differences) and a list of point "
@@ -32,8 +40,11 @@ BUDGET = {"quick": 800, "thorough": 6000}
 ASSUMPTIONS = [
     "with clip_inputs off only in-range points are judged (the layer documents "
     "out-of-range behaviour only through clipping)",
-    "inputs and kernels are float32; the references evaluate the same float32 "
-    "values in float64",
+    "input and kernel values are float32-representable (also in the float64 "
+    "cases); the references evaluate the same values in float64",
+    "only the batch dimension is ever unknown at trace time (the library "
+    "documents that restriction in batch_outer_operation); the other scheme, "
+    "used for the vertex / edge comparison, is always called eagerly",
     "TensorFlow's CPU kernels may flush float32 subnormals to zero, so the "
     "vertex clause allows 1 ulp + 1.2e-38 absolute",
 ]
@@ -43,8 +54,12 @@ TECHNIQUE = ("property-based testing (Hypothesis): differential against float64 
              "inheritance)")
 LEVEL_TEXT = ("Generated-input exploration: random lattice shapes (including the "
               "all-2 fast path, bucketised runs of equal sizes and the rank > 7 "
-              "matmul branch), kernels, unit counts, input forms, batch shapes "
-              "and points of every position class are evaluated by the real "
+              "matmul branch with and without runs of equal non-2 sizes, "
+              "dimensions of up to 8 vertices), list / tuple lattice_sizes, "
+              "kernels, unit counts 1-5, input forms, up to two extra batch "
+              "dimensions, eager calls and tf.function calls with unknown "
+              "batch size, float32 and float64 layers, and points of every "
+              "position class are evaluated by the real "
               "layer / library function and compared pointwise with independent "
               "float64 references; vertices must be reproduced to 1 ulp, the "
               "output must stay inside the corner values of its cell and the "
@@ -57,8 +72,9 @@ LEVEL_NOTE = ("Tolerances: 1e-4 * max|cell corner| for equality with the "
               "reference and between schemes, 1e-5 * max|kernel| (resp. cell "
               "corner) for inequalities, 1 ulp at vertices. Trusted: "
               "TensorFlow/NumPy arithmetic, the references in vlib/oracles.py, "
-              "the harness. Sizes bounded as in the rule; float32 only; eager "
-              "mode only.")
+              "the harness. Sizes bounded as in the rule; values are "
+              "float32-representable; graph mode only through tf.function with "
+              "an unknown batch size (no Keras functional model / fit).")
 
 POINT_CLASSES = ["interior", "face", "vertex", "edge", "tied", "neartie",
                  "ulp", "outside"]
@@ -66,6 +82,9 @@ DELTA = 2.0 ** -10
 TINY = 1e-30
 FLUSH = 1.1754944e-38   # TensorFlow CPU kernels flush float32 subnormals to 0
 OUT_MAGS = [2.0 ** -10, 0.5, 1.0, 3.0, 1e3, 1e6, 1e30, 3e38]
+# float64 layer / kernel / inputs in one case out of eight (the values stay
+# float32-representable, so the references and tolerances are unchanged).
+GEN_FLOAT64 = True
 
 
 # --------------------------------------------------------------------------
@@ -75,11 +94,45 @@ def _sizes(draw, tier):
   big = tier == "thorough"
   if big:
     kinds = ["std"] * 8 + ["midrun"] * 3 + ["matmul2", "matmul2",
-                                             "matmulmixed", "rank7"]
+                                             "matmulmixed", "rank7",
+                                             "matmulrun", "bigdim", "bigdim"]
   else:
     kinds = ["std"] * 16 + ["midrun"] * 6 + ["matmul2", "matmul2",
-                                              "matmulmixed"]
+                                              "matmulmixed", "matmulrun",
+                                              "bigdim", "bigdim", "bigdim"]
   kind = draw(st.sampled_from(kinds))
+  if kind == "matmulrun":
+    # rank 8-9 (matmul branch) with a run of equal non-2 sizes or two non-2
+    # sizes; at most 1152 weights.
+    run = draw(st.sampled_from([[3, 3], [3, 3], [4, 4], [3, 4], [3, 3, 3]]))
+    rank = 8 if (len(run) == 3 or 4 in run) else draw(st.sampled_from([8, 8, 9]))
+    if draw(st.integers(0, 2)) == 0 and len(run) == 2:
+      # the two non-2 sizes apart from each other
+      sizes = [2] * rank
+      i = draw(st.integers(0, rank - 2))
+      j = draw(st.integers(i + 1, rank - 1))
+      sizes[i], sizes[j] = run
+      return sizes
+    at = draw(st.integers(0, rank - len(run)))
+    return [2] * at + run + [2] * (rank - len(run) - at)
+  if kind == "bigdim":
+    # one dimension with 5-8 vertices (>= 3 interior vertices along an axis).
+    rank = draw(st.integers(1, 4))
+    sizes = [draw(st.integers(2, 3)) for _ in range(rank)]
+    j = draw(st.integers(0, rank - 1))
+    sizes[j] = draw(st.integers(5, 8))
+    if rank >= 2 and draw(st.integers(0, 3)) == 0:
+      sizes[(j + 1) % rank] = sizes[j]          # a run of two big dimensions
+    cap = 2048 if big else 432
+    while int(np.prod(sizes)) > cap:
+      i = max((i for i in range(len(sizes)) if i != j),
+              key=lambda i: sizes[i])
+      if sizes[i] > 2:
+        sizes[i] -= 1
+      else:
+        del sizes[i]
+        j = j - 1 if i < j else j
+    return sizes
   if kind == "std":
     return draw(S.lattice_sizes(max_rank=6 if big else 5,
                                 max_size=5 if big else 4,
@@ -109,7 +162,7 @@ def _case(draw, tier):
   sizes = draw(_sizes(tier))
   d = len(sizes)
   n = int(np.prod(sizes))
-  units = draw(st.sampled_from([1, 1, 2, 3]))
+  units = draw(st.sampled_from([1] * 6 + [2] * 3 + [3] * 3 + [4, 5]))
   heavy = d >= 7
   kmode = draw(st.sampled_from(["raw", "raw", "mono", "ew"]))
   if kmode == "ew" and d < 2:
@@ -121,14 +174,32 @@ def _case(draw, tier):
       "clip": draw(st.sampled_from([True, True, False])),
       "entry": draw(st.sampled_from(["layer", "layer", "lib"])),
       "batch": draw(st.integers(1, 2 if heavy else 4)),
-      "extra": draw(st.sampled_from([None, None, 1, 2] if heavy else
-                                    [None, None, 1, 2, 3])),
+      # sizes of 0-2 extra batch dimensions between batch and (units,) d
+      "extra": draw(st.sampled_from(
+          [[], [], [], [], [1], [2], [1, 2], [2, 1], [2, 2]] if heavy else
+          [[], [], [], [], [], [1], [2], [3], [1, 2], [2, 1], [3, 2],
+           [2, 2]])),
+      # call through a tf.function whose batch size is unknown (None)
+      "graph": draw(st.integers(0, 7)) == 0,
+      "sizes_as": draw(st.sampled_from(["list", "list", "tuple"])),
+      "dtype": (draw(st.sampled_from(["float32"] * 7 + ["float64"]))
+                if GEN_FLOAT64 else "float32"),
       "kmode": kmode,
       "kernel": draw(S.array_desc(shape=(n, units))),
       "pclasses": draw(st.lists(st.sampled_from(POINT_CLASSES), min_size=2,
                                 max_size=8)),
       "aux": draw(S.seeds),
   }
+  # keep the number of judged points (batch * extra * units) bounded.
+  cap = 12 if heavy else 30
+  while case["batch"] * int(np.prod(case["extra"] or [1])) * units > cap:
+    if case["batch"] > 1:
+      case["batch"] -= 1
+    else:
+      e = list(case["extra"])
+      i = int(np.argmax(e))
+      e[i] -= 1
+      case["extra"] = e
   if kmode == "mono":
     md = [j for j in range(d) if draw(st.booleans())]
     case["mono_dims"] = md or [draw(st.integers(0, d - 1))]
@@ -276,22 +347,35 @@ def _set(x, idx, vals):
 
 # --------------------------------------------------------------------------
 # evaluation through the real library
+def _extra(case):
+  """Sizes of the extra batch dimensions (older cases: None or one int)."""
+  e = case.get("extra")
+  if e is None:
+    return ()
+  if isinstance(e, int):
+    return (e,)
+  return tuple(int(v) for v in e)
+
+
 class _Target(object):
 
-  def __init__(self, case, interp, k32, mono=None, ew=None):
+  def __init__(self, case, interp, k32, mono=None, ew=None, graph=None):
     import tensorflow as tf
     import tensorflow_lattice as tfl
     self.tf = tf
     self.case = case
     sizes, units = list(case["sizes"]), case["units"]
+    if case.get("sizes_as") == "tuple":
+      sizes = tuple(sizes)
     self.d = len(sizes)
-    self.lead = ((case["extra"],) if case["extra"] else ()) + (
-        (units,) if units > 1 else ())
+    self.np_dtype = np.float64 if case.get("dtype") == "float64" else np.float32
+    self.lead = _extra(case) + ((units,) if units > 1 else ())
+    kern = k32.astype(self.np_dtype)
     if case["entry"] == "lib":
       fn = {"hypercube": tfl.lattice_lib.evaluate_with_hypercube_interpolation,
             "simplex": tfl.lattice_lib.evaluate_with_simplex_interpolation}[
                 interp]
-      kt = tf.constant(k32)
+      kt = tf.constant(kern)
       self.fn = lambda inp: fn(inp, kernel=kt, units=units,
                                lattice_sizes=sizes, clip_inputs=case["clip"])
     else:
@@ -301,6 +385,8 @@ class _Target(object):
       if ew is not None:
         kw["monotonicities"] = [1 if j == ew[0] else 0 for j in range(self.d)]
         kw["edgeworth_trusts"] = [(ew[0], ew[1], ew[2])]
+      if self.np_dtype is np.float64:
+        kw["dtype"] = "float64"
       layer = tfl.layers.Lattice(lattice_sizes=sizes, units=units,
                                  clip_inputs=case["clip"],
                                  interpolation=interp, **kw)
@@ -308,14 +394,27 @@ class _Target(object):
         layer.build([(None,) + self.lead + (1,)] * self.d)
       else:
         layer.build((None,) + self.lead + (self.d,))
-      layer.kernel.assign(k32)
+      layer.kernel.assign(kern)
       self.fn = layer
+    if case.get("graph") if graph is None else graph:
+      # batch size unknown at trace time, as in Keras fit / a functional model.
+      raw, dt = self.fn, tf.as_dtype(self.np_dtype)
+      if case["form"] == "list":
+        spec = [tf.TensorSpec([None] + list(self.lead) + [1], dt)] * self.d
+        gfn = tf.function(lambda *a: raw(list(a)), input_signature=spec,
+                          autograph=False)
+        self.fn = lambda inp: gfn(*inp)
+      else:
+        spec = [tf.TensorSpec([None] + list(self.lead) + [self.d], dt)]
+        self.fn = tf.function(lambda a: raw(a), input_signature=spec,
+                              autograph=False)
 
   def __call__(self, flat):
     """flat: (P, d) float32 with P a multiple of prod(lead); returns (Q, units)
     float64 where row q, unit u belongs to flat point q * units + u."""
     units = self.case["units"]
-    x = flat.reshape((-1,) + self.lead + (self.d,)).astype(np.float32)
+    x = flat.reshape((-1,) + self.lead + (self.d,)).astype(np.float32).astype(
+        self.np_dtype)
     if self.case["form"] == "list":
       inp = [self.tf.constant(x[..., j:j + 1]) for j in range(self.d)]
     else:
@@ -379,8 +478,8 @@ def run_case(case):
   kmax = np.max(np.abs(k64), axis=0)                      # (units,)
   klo, khi = k64.min(axis=0), k64.max(axis=0)
 
-  extra = case["extra"] or 1
-  npts = case["batch"] * extra * units
+  extra = _extra(case)
+  npts = case["batch"] * int(np.prod(extra, dtype=np.int64)) * units
   x32, pcls, jsel = make_points(rs, sizes, npts, clip, case["pclasses"])
   unit_of = np.arange(npts) % units
   x = x32.astype(np.float64)
@@ -389,8 +488,7 @@ def run_case(case):
   all2 = all(s == 2 for s in sizes)
   shape_cls = "all2" if all2 else ("runs" if _has_run(sizes) else "mixed")
   out.label("interp:" + interp, "form:" + case["form"], "shape:" + shape_cls,
-            "units:%d" % units, "extra-batch-dims:%d" % (1 if case["extra"]
-                                                         else 0),
+            "units:%d" % units, "extra-batch-dims:%d" % len(extra),
             "clip:%s" % ("on" if clip else "off"), "kernel:" + kmode,
             "entry:" + case["entry"], "rank:%d" % d, "path:" + _path(case))
   if d >= 8:
@@ -402,9 +500,36 @@ def run_case(case):
     out.label("bucket-of-equal-dims")
   for c in sorted(set(pcls)):
     out.label("pt:" + c)
+  # widened input classes (each constructed, not filtered)
+  graph = bool(case.get("graph"))
+  if len(extra) == 2:
+    out.label("extra2+form:" + case["form"])
+    if units > 1:
+      out.label("extra2+units>1")
+  if graph:
+    out.label("graph:none-batch", "graph+form:" + case["form"],
+              "graph+" + _path(case))
+    if extra:
+      out.label("graph+extra-batch-dims")
+  out.label("sizes-container:" + (case.get("sizes_as") or "list"))
+  out.label("dtype:" + (case.get("dtype") or "float32"))
+  if units >= 4:
+    out.label("units>=4")
+    if units != case["batch"] and units not in extra and units != d + 1:
+      out.label("units>=4,no-coincidence")
+  if max(sizes) >= 5:
+    out.label("dim-size>=5", "dim-size>=5+" + interp)
+  if d >= 8 and not all2:
+    nb = sum(1 for s_ in sizes if s_ != 2)
+    out.label("rank>7:non2-dims=%d" % min(nb, 2))
+    if any(a == b != 2 for a, b in zip(sizes[:-1], sizes[1:])):
+      out.label("rank>7:run-of-equal-non2")
+    if units > 1:
+      out.label("rank>7:units>1")
 
   target = _Target(case, interp, k32, mono_dims, ew)
-  twin = _Target(case, other, k32, mono_dims, ew)
+  # the other scheme (vertices / edges only) is always called eagerly
+  twin = _Target(case, other, k32, mono_dims, ew, graph=False)
 
   # ---------------------------------------------------------------- (a)-(c)
   y, bad = target(x32)
